@@ -73,10 +73,32 @@ def run(prog, chk):
     cli_config_mapping(prog, chk)
     output_replaced_unconditionally(prog, chk)
     server_stack(prog, chk)
+    input_bytes_untouched(prog, chk)
     from props import C06
     C06.hash_iteration(prog, chk)  # the same bytes from every front-end presupposes that no unordered iteration reaches the output
     from props import C01
     C01.utf8_boundary(prog, chk)  # transform_str converts the output to a String: every front-end agrees only if all input is validated up front
+
+
+TEXT_MODE_READS = ("std::io::BufRead::lines", "std::io::BufRead::read_line", "std::io::Read::read_to_string", "std::io::read_to_string", "std::string::String::from_utf8_lossy", "std::fs::read_to_string", "std::io::Stdin::lines", "std::io::Stdin::read_line")
+
+
+def input_bytes_untouched(prog, chk):
+    """every front-end hands the document to the library as the bytes it received: none of them reads it line by
+    line or as lossy text first (which rewrites line ends, adds a final newline, replaces invalid sequences) - the
+    library call and the other front-ends would then transform a different document"""
+    n = 0
+    for b in prog.bodies.values():
+        if not (front_mod(b.path) or b.path.startswith("svgdx::transform_file") or prog.owners_of(b.path) & {"svgdx::transform_file", "svgdx::transform_str", "svgdx::transform_stream"}):
+            continue
+        if b.path.startswith("svgdx::cli::get_config") or "Config::from_args" in b.path:
+            continue
+        n += 1
+        for (bb, t, c) in b.call_sites(lambda c: c.decl_path in TEXT_MODE_READS or c.path in TEXT_MODE_READS):
+            chk.bad("A13.input-bytes", f"{b.short}:{c.path.split('::')[-1]}", b.where(bb, t.get("line")), f"{b.short} reads its input through {c.path} (text mode: line ends are normalised, a final newline appears, or invalid bytes are replaced) before the transform: the same document gives different output through this front-end than through the library")
+    if "cli" in prog.features:
+        chk.floor("A13.input-bytes", n, 3, "front-end function scanned for text-mode reads")
+    chk.ok("A13.input-bytes", "front-ends", "-", f"{n} front-end functions scanned: the document reaches the library as bytes")
 
 
 # ---------------------------------------------------------------------------
